@@ -1,7 +1,8 @@
 (* Property C03: multi-threaded VCD loading equals single-threaded loading.
    Pinned: (0) read_values_mt_equals_st: for every body written one token group per line (time stamp, scalar change,
    vector/real/string change, $comment ... $end, $dumpvars/$end/$dumpoff/$dumpon, each followed by a newline; any content
-   the grammar of TokenProofs.line_ok admits) whose first line is a time stamp and whose time stamps increase, for every
+   the grammar of TokenProofs.line_ok admits) whose time stamps - the implicit time 0 of changes in front of the first time
+   stamp included - increase, for every
    max_threads and min_chunk, the model of read_values' multi-threaded branch (determine_thread_chunks, one run_chunk per
    chunk, Encoder::append in chunk order, finish) and the model of its single-threaded branch produce stores from which
    every bit-vector signal (and, _rs, every real and string signal) reports the same changes and the time tables are equal - although the blocks differ.  The steps: thread_first/thread_later
@@ -15,11 +16,11 @@
    no token is split, altered or invented at a seam.  (2) the storage side (appended_transparent for bit vectors, appended_transparent_rs for reals
    and strings): whatever the per-thread encoders recorded is reported in chunk order with shifted time indices, de-duplicated across seams.
    read_values_mt_equals_st_rs / mt_equals_st_rs: the same for real-valued and string-valued variables.
-   NOT proved: (0) for bodies that
-   begin with value changes at the implicit time 0, and for layouts other than one token group per line (several
-   changes per line, indented lines); for those the tiling is decided by the correspondence run and the oracle.  The
-   hypotheses "first line is a time stamp", "time stamps increase", "every line ends in a newline" are exactly where the
-   known findings D8/D15/D16 live (Proofs/HandoverRefuted.v). *)
+   NOT proved: (0) for layouts other than one token group per line (several changes per line, indented lines); for
+   those the tiling is decided by the correspondence run and the oracle.  The hypotheses "time stamps increase (no `#0`
+   after changes at the implicit time 0)", "a time stamp starts its line", "every line ends in a newline", "the loads
+   succeed (the first chunk records a time step)" are exactly where the known findings D8/D15/D16 live
+   (Proofs/HandoverRefuted.v). *)
 From WV Require Import Model.Base Model.Bits Model.WaveMem Model.VcdBody Spec.TimeSpec Spec.StoreSpec
   Proofs.TimeTableProofs Proofs.StoreProofs Proofs.EncoderProofs Proofs.BodyProofs Proofs.HandoverProofs Proofs.RealStringEnc
   Proofs.VcdStreamProofs Proofs.TokenProofs Proofs.TilingProofs Proofs.MtProofs Proofs.MtRsProofs.
@@ -96,7 +97,7 @@ Check read_values_mt_equals_st :
   (forall d n, (length d <= n)%nat -> lz_decompress (lz_compress d) n = Some d) ->
   forall cap, 1 <= cap -> cap <= 65536 ->
   forall debug tpes lookup ls max_threads min_chunk b_st t_st b_mt t_mt id bits,
-  Forall line_ok ls -> starts_with_time ls -> (1 <= bits)%nat -> nth_error tpes id = Some (EncBits bits) ->
+  Forall line_ok ls -> (1 <= bits)%nat -> nth_error tpes id = Some (EncBits bits) ->
   read_values_st parse_f64 lz_compress cap debug tpes lookup (body ls) = Ok (b_st, t_st) -> N.of_nat (length t_st) < 4294967296 ->
   read_values_mt parse_f64 lz_compress cap debug tpes lookup (body ls) max_threads min_chunk = Ok (b_mt, t_mt) ->
   N.of_nat (length t_mt) < 4294967296 ->
@@ -113,7 +114,7 @@ Check mt_equals_st :
   (forall d n, (length d <= n)%nat -> lz_decompress (lz_compress d) n = Some d) ->
   forall cap, 1 <= cap -> cap <= 65536 ->
   forall debug tpes lookup ls len0 rest stop_st e_st b_st t_st encs first others e_mt b_mt t_mt id bits,
-  Forall line_ok ls -> starts_with_time ls ->
+  Forall line_ok ls ->
   contig 0 ((0%nat, len0) :: rest) -> (length (body ls) <= end_of 0 ((0%nat, len0) :: rest))%nat ->
   (1 <= bits)%nat -> nth_error tpes id = Some (EncBits bits) ->
   N.of_nat (length (body ls)) <= stop_st + 1 ->
@@ -130,7 +131,7 @@ Check mt_equals_st :
     observe_signal s_st = observe_signal s_mt /\ t_st = t_mt.
 
 Check ops_tile :
-  forall lookup ls len0 rest ops, Forall line_ok ls -> starts_with_time ls ->
+  forall lookup ls len0 rest ops, Forall line_ok ls ->
   contig 0 ((0%nat, len0) :: rest) -> (length (body ls) <= end_of 0 ((0%nat, len0) :: rest))%nat ->
   ops_of lookup true false (evs ls) = Some ops ->
   exists opss, Forall2 (fun c o => thread_ops lookup ls c = Some o) ((0%nat, len0) :: rest) opss /\ ops = concat opss.
@@ -157,7 +158,7 @@ Check read_values_mt_equals_st_rs :
   (forall d n, (length d <= n)%nat -> lz_decompress (lz_compress d) n = Some d) ->
   forall cap, 1 <= cap -> cap <= 65536 ->
   forall debug tpes lookup ls max_threads min_chunk b_st t_st b_mt t_mt id str,
-  Forall line_ok ls -> starts_with_time ls -> nth_error tpes id = Some (rs_tpe str) ->
+  Forall line_ok ls -> nth_error tpes id = Some (rs_tpe str) ->
   read_values_st parse_f64 lz_compress cap debug tpes lookup (body ls) = Ok (b_st, t_st) -> N.of_nat (length t_st) < 4294967296 ->
   read_values_mt parse_f64 lz_compress cap debug tpes lookup (body ls) max_threads min_chunk = Ok (b_mt, t_mt) ->
   N.of_nat (length t_mt) < 4294967296 ->
@@ -175,7 +176,7 @@ Check mt_equals_st_rs :
   (forall d n, (length d <= n)%nat -> lz_decompress (lz_compress d) n = Some d) ->
   forall cap, 1 <= cap -> cap <= 65536 ->
   forall debug tpes lookup ls len0 rest stop_st e_st b_st t_st encs first others e_mt b_mt t_mt id str,
-  Forall line_ok ls -> starts_with_time ls ->
+  Forall line_ok ls ->
   contig 0 ((0%nat, len0) :: rest) -> (length (body ls) <= end_of 0 ((0%nat, len0) :: rest))%nat ->
   nth_error tpes id = Some (rs_tpe str) ->
   N.of_nat (length (body ls)) <= stop_st + 1 ->
